@@ -129,7 +129,7 @@ pub struct Case {
 }
 
 /// cw2 version strings of pre-0.14 releases (the storage layout of token_info / balance / allowance is the same)
-pub const LEGACY_VERSIONS: [&str; 8] = ["0.13.4", "0.13.0", "0.12.1", "0.10.3", "0.9.1", "0.6.2", "0.2.0", "0.13.9"];
+pub const LEGACY_VERSIONS: [&str; 11] = ["0.13.4", "0.13.0", "0.12.1", "0.10.3", "0.9.1", "0.6.2", "0.2.0", "0.13.9", "0.12.0-alpha1", "0.11.0-rc1", "0.10.0-soon"];
 
 // ---------------------------------------------------------------- strategies
 
